@@ -233,7 +233,10 @@ func (k Knobs) config(root string) *core.BlockChainConfig {
 		StateScheme:      k.Scheme,
 		ArchiveMode:      k.Archive && k.Scheme == rawdb.HashScheme,
 		SnapshotLimit:    0,
-		SnapshotWait:     true,
+		// production setting: the snapshot is built in the background (with SnapshotWait a
+		// generator that stops on a missing trie node makes NewBlockChain wait forever);
+		// the harness waits for quiescence instead
+		SnapshotWait:     false,
 		TxLookupLimit:    k.TxLimit,
 		TrienodeHistory:  -1,
 	}
